@@ -447,6 +447,73 @@ class SymObjList:
     def truth_term(self):
         return icmp(">", self.length, 0)
 
+    def py_getattr(self, I, name):
+        from .interp import Builtin
+        if name == "append":
+            def append(I_, a, k):
+                # in-place: the new last element is stored as an override at index = old length
+                old = self.length
+                key = tid(idx_term(old) if not isinstance(old, int) else z3.IntVal(old))
+                self._memo[key] = a[0]
+                base = self.make
+                oldt = zi(old)
+                v = a[0]
+
+                def make2(i, base=base, oldt=oldt, v=v):
+                    if ctx().decide(zi(i) == oldt):
+                        return v
+                    return base(i)
+                self.make = make2
+                self.length = mkint(iadd(old, 1))
+                return None
+            return Builtin("append", append)
+        raise Unsupported("method of a symbolic-length record list: " + name)
+
+    def concat(self, other):
+        """self + other (a new list; the element objects are shared, as in Python)"""
+        n1 = self.length
+        if isinstance(other, list):
+            other = from_pylist(other)
+        a, b = self, other
+
+        def make(i):
+            if ctx().decide(icmp("<", i, n1)):
+                return a.at(i)
+            return b.at(mkint(isub(i, n1)))
+        return SymObjList(mkint(iadd(n1, other.length)), make)
+
+
+def from_pylist(items):
+    """a concrete Python list viewed as a record list (element selection forks on the index)"""
+    items = list(items)
+
+    def make(i):
+        for k in range(len(items) - 1):
+            if ctx().decide(icmp("==", i, k)):
+                return items[k]
+        return items[-1]
+    return SymObjList(len(items), make if items else (lambda i: None))
+
+
+class FilteredArr:
+    """[elem(rec) for rec in L if cond(rec)] over a symbolic-length record list: kept as (length of L, elem, cond); only
+    aggregate uses (np.sum, sum, len) are supported"""
+
+    def __init__(self, length, elem, cond):
+        self.length, self.elem, self.cond = length, elem, cond
+
+    def indicator(self):
+        """SymArr over the positions of L: elem (as 0/1 or integer) where cond holds, 0 elsewhere"""
+        def f(i):
+            v = self.elem(i)
+            t = iite(bterm(v), 1, 0) if isinstance(v, (bool, SBool)) else v
+            return mkint(iite(self.cond(i), t, 0))
+        return SymArr(self.length, f, "int")
+
+    def py_len(self, I):
+        arr = SymArr(self.length, lambda i: mkint(iite(self.cond(i), 1, 0)), "int")
+        return arr.fold("+").at(self.length)
+
 
 class SortedPerm:
     """contract of  sorted(enumerate(L), key=k)  for a symbolic-length list: a permutation sigma of 0..N-1 (bijection: trusted
